@@ -5,6 +5,10 @@
 import Fx.Eval
 import Fx.Xdr
 import Fx.Lemmas.Runtime
+import Fx.Lemmas.Local
+import Fx.Lemmas.Fuel
+import Fx.Lemmas.Roundtrip
+import Fx.Lemmas.Selects
 namespace Fx.C05
 open Fx
 
@@ -48,5 +52,32 @@ theorem C05_bound_resolution_constant (a : Ast) (c t : String) (n : Nat)
     (hc : bget c a.constants = some (.constValue t)) (hp : parseU32 t = some n) :
     resolveSize a (.constant c) = .ok n := by
   simp [resolveSize, Ast.getConst, hc, ConstantType.display, hp]
+
+/-- **C05 (no strict prefix of a valid encoding is ever accepted).**  For every supported specification, declared type and
+    well-typed value `x`: if the encoding of `x` is cut anywhere before its end (`enc x = pfx ++ t`, `t ≠ []`), the generated
+    decoder does not return `Ok` on `pfx` — at any offset, with any budget.
+    Proof: an accepted prefix would, by locality, be accepted with the same stopping point on `enc x` itself, but the
+    round trip theorem says the decoder stops exactly at the end of `enc x`. -/
+theorem C05_no_strict_prefix (a : Ast) (m : Module) (hs : Supported a = true) (hg : generateModule a = .ok m)
+    (n : String) (x : XVal) (h : hasTypeNamed a n x = true) (pfx t : List Byte) (hsplit : x.enc = pfx ++ t) (ht : t ≠ [])
+    (fuel off : Nat) (l : List Ev) (v : Val) (c' : Cur) :
+    evalImpl a m.plans fuel n ⟨off, pfx, l⟩ ≠ .ok v c' := by
+  intro hok
+  obtain ⟨pre, d, o, r⟩ := (eval_local a m.plans (supported_plans hs hg).2 fuel).1 n _ v c' hok
+  simp only at d o
+  obtain ⟨l2', e⟩ := r (c'.data ++ t) l
+  have henc : pre ++ (c'.data ++ t) = x.enc := by rw [hsplit, d, List.append_assoc]
+  rw [henc] at e
+  have e1 := evalImpl_fuel_mono a m.plans n ⟨off, x.enc, l⟩ fuel (max fuel (x.fsize + 1)) (Nat.le_max_left _ _)
+    (by simp only at e; rw [e]; simp)
+  obtain ⟨l', e2⟩ := roundtrip hs hg (match_selects_of_supported hs hg) n x h (max fuel (x.fsize + 1))
+    (by have := Nat.le_max_right fuel (x.fsize + 1); omega) off [] l
+  simp only [List.append_nil] at e2
+  simp only at e
+  rw [e1, e] at e2
+  injection e2 with _ hc
+  injection hc with _ hdata _
+  have : t = [] := (List.append_eq_nil_iff.mp hdata).2
+  exact ht this
 
 end Fx.C05
